@@ -226,6 +226,11 @@ std::vector<uint32_t> gen_keys(Rng& rng, unsigned pat, size_t n) {
 // ------------------------------------------------------------------ sizes
 static size_t pick_size(Rng& rng, unsigned comp, size_t cap) {
   size_t n;
+  if (comp == PARTITION && rng.below(3) == 0) {
+    // many blocks: only then can more than two or three threads claim blocks from both ends
+    n = 1024 * (size_t)rng.range(8, 64) + (size_t)rng.pick<int>({0, 0, 1, 1023, (int)rng.range(1, 1023)});
+    return std::min(n, cap);
+  }
   switch (rng.below(16)) {
   case 0: n = rng.pick<size_t>({0, 1, 2, 3}); break;
   case 1: n = rng.pick<size_t>({1023, 1024, 1025}); break;
@@ -359,6 +364,8 @@ int main(int argc, char** argv) {
       c.iterDelay.who    = (unsigned)rng.below(4);
       c.iterDelay.a      = (unsigned)rng.below(c.threads);
     }
+    if (c.comp == PARTITION && c.threads >= 2)
+      c.gateK = std::min(c.threads, rng.pick<unsigned>({0, 0, 2, 3, 4, 1000}));
     unsigned pointProb = rng.pick<unsigned>({0, 0, 256, 2048});
     unsigned spinProb  = rng.pick<unsigned>({0, 0, 512, 8192});
     uint64_t noiseSeed = rng.next();
@@ -377,7 +384,7 @@ int main(int argc, char** argv) {
     }
     p.kv("variant", c.variant).kv("delay_kind", c.delay.kind).kv("delay_a", c.delay.a).kv("delay_ns", c.delay.ns)
         .kv("delay_budget", c.delay.budget).kv("iter_delay_ns", c.iterDelay.ns).kv("iter_delay_budget", c.iterDelay.budget)
-        .kv("iter_delay_who", c.iterDelay.who).kv("iter_delay_a", c.iterDelay.a).kv("pointProb", pointProb)
+        .kv("iter_delay_who", c.iterDelay.who).kv("iter_delay_a", c.iterDelay.a).kv("gate", c.gateK).kv("pointProb", pointProb)
         .kv("spinProb", spinProb);
     H.begin(k, p.str());
 
@@ -423,7 +430,7 @@ int main(int argc, char** argv) {
                       "|t" + std::to_string(c.threads) + "|s" + std::to_string(sockets) + "|k" +
                       std::to_string(c.comp == SORT || c.comp >= ACCUMULATE ? c.keyPat : c.boolPat) + "|o" +
                       std::to_string(c.comp == SORT ? c.cmp.kind : (c.comp >= ACCUMULATE ? c.opKind : c.pred.kind)) + "|d" +
-                      std::to_string(c.delay.kind) + (c.iterDelay.ns ? "i" + std::to_string(c.iterDelay.who) : "") + "|" + o.cls + "|u" + std::to_string(used);
+                      std::to_string(c.delay.kind) + (c.iterDelay.ns ? "i" + std::to_string(c.iterDelay.who) : "") + (c.gateK ? "g" + std::to_string(c.gateK) : "") + "|" + o.cls + "|u" + std::to_string(used);
     J obs;
     obs.kv("elements", c.n).kv("callback_calls", g_mon.totalCalls()).kv("delays_injected", g_mon.totalDelays())
         .kv("parallel_path_cases", (int)parallelPath).kv("multi_thread_cases", (int)(used >= 2))
